@@ -16,7 +16,7 @@ import (
 func init() {
 	register(&propDef{
 		id: "C07", level: "other", perCfg: false,
-		explain: "Necessary structural conditions of C07, decided for all descriptions at once because they are statements about the generator's code. G3 lexical-context safety (E10): an AST walk of the generator in statement order tracks the Go lexer mode of the output (code, line comment, string, raw string) across every constant fragment; joins must agree on the mode; every spliced runtime string is classified by provenance (which member of the parsed tree, through strings.Title/ToLower/Replace) with the byte class the parser can put there (token charsets by finite evaluation of the readers, the interface-name patterns via regexp/syntax, documentation and description: any byte) and must be safe in its context - identifier bytes only in code, a letter first when it starts an identifier, not a Go keyword when it is a whole identifier, no quote/backslash/newline in a string, no backtick or CR in a raw string, no newline in a line comment, tag-safe in a struct tag; replacements must return to the same mode; the walk must end in code mode. G2 conversion-kind agreement: the kinds whose emitted Go type depends on the tagged/untagged flag are derived from the type writer (arms that use the flag, directly or through the recursive call) and every site that chooses between an explicit conversion and a plain assignment must list exactly that set; G2b conversions are emitted parenthesised `(T)(x)` because T may start with '*'. G4 imports are decided from the selector expressions of the parsed output (never by searching text that contains free prose), one decision per package qualifier that occurs in a code-mode constant. G1 nullable tree members (which pointer members of the tree the parser may leave nil is derived from the parser's construction sites) are dereferenced only under a nil test, a kind discrimination, after the generator's own normalisation loop, or under the stated domain assumption (method in/out are structs). G7 the output file is written with one truncating whole-file write of exactly the template function's result. G5 determinism: no map iteration, clock, environment, random source or goroutine in code reachable from the template function. G6 termination: all loops range over slices; the type writer recurses only into ElementType / a field's Type.",
+		explain: "Necessary structural conditions of C07, decided for all descriptions at once because they are statements about the generator's code. G3 lexical-context safety (E10): an AST walk of the generator in statement order tracks the Go lexer mode of the output (code, line comment, string, raw string) across every constant fragment; joins must agree on the mode; every spliced runtime string is classified by provenance (which member of the parsed tree, through strings.Title/ToLower/Replace) with the byte class the parser can put there (token charsets by finite evaluation of the readers, the interface-name patterns via regexp/syntax, documentation and description: any byte) and must be safe in its context - identifier bytes only in code, a letter first when it starts an identifier, not a Go keyword when it is a whole identifier, no quote/backslash/newline in a string, no backtick or CR in a raw string, no newline in a line comment, tag-safe in a struct tag; replacements must return to the same mode; the walk must end in code mode. G2 conversion-kind agreement: the kinds whose emitted Go type depends on the tagged/untagged flag are derived from the type writer (arms that use the flag, directly or through the recursive call) and every site that chooses between an explicit conversion and a plain assignment must list exactly that set; G2b conversions are emitted parenthesised `(T)(x)` because T may start with '*'. G4 imports are decided from the selector expressions of the parsed output (never by searching text that contains free prose), one decision per package qualifier that occurs in a code-mode constant. G1 nullable tree members (which pointer members of the tree the parser may leave nil is derived from the parser's construction sites) are dereferenced only under a nil test, a kind discrimination, after the generator's own normalisation loop, or under the stated domain assumption (method in/out are structs). G7 the output file is written with one truncating whole-file write of exactly the template function's result. G7 also: the file is named after the package name, whose derivation from the interface name introduces no `_` besides the keyword suffix (no *_test.go, *_GOOS.go, *_GOARCH.go). G8 the parser is handed the input with at most trailing newlines removed and the emitted description is the tree's Description re-encoded for the raw string only. G5 determinism: no map iteration, clock, environment, random source or goroutine in code reachable from the template function. G6 termination: all loops range over slices; the type writer recurses only into ElementType / a field's Type.",
 		notDec:  "That the emitted token sequence is a well-typed Go program for every description (needs a grammar-level string analysis or execution of the generator - out of family / out of reach); go/format and go/parser behaviour.",
 		trusted: []string{"go/parser and go/format accept what the Go lexer/grammar accept", "strings.Title upper-cases the first letter of an ASCII identifier"},
 		assume:  []string{"method input and output types are structs (the property's domain)", "type references resolve, field names are distinct and no member is named like one of the generator's fixed identifiers (the property's domain)"},
